@@ -1,7 +1,7 @@
 (* mode_dot with the mode as a Python int (negative modes count from the end).  Core backend: the textbook product at the
-   normalised mode, for every -N <= mode < N.  Einsum backend AS IT IS: right for mode >= 0 and for vector operands, but a
-   matrix operand with a negative mode returns a tensor of the ORIGINAL shape (the new label is summed out): refuted by a
-   computed witness; the two backends agree on the rest. *)
+   normalised mode, for every -N <= mode < N.  Einsum backend (repaired by /repo 92eb2a5): the same, hence the backends agree
+   for every Python mode.  The rule before 92eb2a5 (a matrix operand with a negative mode returned a tensor of the ORIGINAL
+   shape) is kept as a labelled regression Example. *)
 From Coq Require Import List Arith ZArith Lia Ring Bool.
 From TLV Require Import Base.Shape Base.PyList Base.Tensor Base.BigSum Model.Base Proofs.BaseProofs Model.Tenalg
   Proofs.TenalgProofs Proofs.TenalgProofsEinsum Proofs.TenalgProofsEinsumVec.
@@ -39,34 +39,54 @@ Theorem mode_dot_z_vector_spec (T v : tensor F) (z : Z) (k : nat) (tr : bool) (n
       get d R ridx = bsum Op n (fun i => get d v [i] *r get d T (insert_at k i ridx)).
 Proof. intros Hz Hk WT Hpos Hsv Hn. unfold mode_dot_z. rewrite Hz. now apply (mode_dot_vector_spec Op T v k tr n). Qed.
 
-(* what does hold for the einsum backend: non-negative modes, and vector operands with any mode *)
-Theorem mode_dot_z_backends_agree_nonneg (T M : tensor F) (z : Z) (k : nat) (tr : bool) (a b : nat) :
-  py_index (ndim T) z = Some k -> (0 <= z)%Z -> k < ndim T ->
+Lemma py_index_lt n z k : py_index n z = Some k -> k < n.
+Proof.
+  unfold py_index. destruct ((0 <=? z) && (z <? Z.of_nat n))%Z eqn:E1.
+  - apply andb_true_iff in E1. destruct E1 as [A B]. apply Z.leb_le in A. apply Z.ltb_lt in B. intros H. injection H as <-. lia.
+  - destruct ((z <? 0) && (- Z.of_nat n <=? z))%Z eqn:E2; [|discriminate].
+    apply andb_true_iff in E2. destruct E2 as [A B]. apply Z.ltb_lt in A. apply Z.leb_le in B. intros H. injection H as <-. lia.
+Qed.
+
+(* einsum backend, any Python mode: the same formula *)
+Theorem mode_dot_e_z_matrix_spec (T M : tensor F) (z : Z) (k : nat) (tr : bool) (a b : nat) :
+  py_index (ndim T) z = Some k ->
+  wf T -> wf M -> 0 < prod (shape T) -> shape M = [a; b] ->
+  (if tr then a else b) = nth k (shape T) 0 -> 0 < (if tr then b else a) ->
+  exists R, mode_dot_e_z Op T M z tr = Ok R /\ wf R /\
+    shape R = set_nth k (if tr then b else a) (shape T) /\
+    forall idx, inb (shape R) idx ->
+      get d R idx = bsum Op (nth k (shape T) 0) (fun i => mentry Op M tr (nth k idx 0) i *r get d T (set_nth k i idx)).
+Proof.
+  intros Hz WT WM Hpos HsM Hdim HJ. unfold mode_dot_e_z. rewrite Hz.
+  apply (mode_dot_e_matrix_spec Op Rth T M k tr a b); auto. now apply (py_index_lt _ z).
+Qed.
+
+(* the two backends agree for every Python mode, matrix and vector operands *)
+Theorem mode_dot_z_backends_agree (T M : tensor F) (z : Z) (k : nat) (tr : bool) (a b : nat) :
+  py_index (ndim T) z = Some k ->
   wf T -> wf M -> 0 < prod (shape T) -> shape M = [a; b] ->
   (if tr then a else b) = nth k (shape T) 0 -> 0 < (if tr then b else a) ->
   mode_dot_z Op T M z tr = mode_dot_e_z Op T M z tr.
 Proof.
-  intros Hz Hnn Hk WT WM Hpos HsM Hdim HJ. unfold mode_dot_z, mode_dot_e_z. rewrite Hz.
-  assert (E : (0 <=? z)%Z = true) by (now apply Z.leb_le). rewrite E.
-  now apply (mode_dot_backends_agree Op Rth T M k tr a b).
+  intros Hz WT WM Hpos HsM Hdim HJ. unfold mode_dot_z, mode_dot_e_z. rewrite Hz.
+  apply (mode_dot_backends_agree Op Rth T M k tr a b); auto. now apply (py_index_lt _ z).
 Qed.
 Theorem mode_dot_z_backends_agree_vector (T v : tensor F) (z : Z) (k : nat) (tr : bool) (n : nat) :
-  py_index (ndim T) z = Some k -> k < ndim T ->
+  py_index (ndim T) z = Some k ->
   wf T -> 0 < prod (shape T) -> shape v = [n] -> n = nth k (shape T) 0 ->
   mode_dot_z Op T v z tr = mode_dot_e_z Op T v z tr.
 Proof.
-  intros Hz Hk WT Hpos Hsv Hn. unfold mode_dot_z, mode_dot_e_z. rewrite Hz, Hsv.
-  destruct (0 <=? z)%Z; now apply (mode_dot_vector_backends_agree Op Rth T v k tr n).
+  intros Hz WT Hpos Hsv Hn. unfold mode_dot_z, mode_dot_e_z. rewrite Hz.
+  apply (mode_dot_vector_backends_agree Op Rth T v k tr n); auto. now apply (py_index_lt _ z).
 Qed.
 
 End P.
 
-(* the defect: einsum_tenalg.mode_dot(T, M, mode=-1) with a matrix M returns a tensor of T's shape, the core backend the mode product *)
-Theorem mode_dot_einsum_negative_mode_refuted :
-  exists (T M R1 R2 : tensor Z) (z : Z), (z < 0)%Z /\ wf T /\ wf M /\ py_index (ndim T) z = Some 1 /\ shape M = [1; 2] /\
-    mode_dot_z ZR T M z false = Ok R1 /\ mode_dot_e_z ZR T M z false = Ok R2 /\ R1 <> R2.
-Proof.
-  exists (mk [2; 2] [1; 2; 3; 4]%Z), (mk [1; 2] [1; 1]%Z), (mk [2; 1] [3; 7]%Z), (mk [2; 2] [1; 2; 3; 4]%Z), (-1)%Z.
-  split; [lia|]. split; [reflexivity|]. split; [reflexivity|]. split; [reflexivity|]. split; [reflexivity|].
-  split; [vm_compute; reflexivity|]. split; [vm_compute; reflexivity|]. discriminate.
-Qed.
+(* regression (defect repaired by /repo 92eb2a5): the old einsum rule returned a tensor of T's shape for mode = -1 and a matrix;
+   the repaired rule and the core backend return the mode product *)
+Example mode_dot_einsum_negative_mode_before_92eb2a5 :
+  let T : tensor Z := mk [2; 2] [1; 2; 3; 4]%Z in let M : tensor Z := mk [1; 2] [1; 1]%Z in
+  mode_dot_e_z_before_92eb2a5 ZR T M (-1)%Z false = Ok (mk [2; 2] [1; 2; 3; 4]%Z) /\
+  mode_dot_e_z ZR T M (-1)%Z false = Ok (mk [2; 1] [3; 7]%Z) /\
+  mode_dot_z ZR T M (-1)%Z false = Ok (mk [2; 1] [3; 7]%Z).
+Proof. cbv zeta. repeat split; vm_compute; reflexivity. Qed.
